@@ -18,18 +18,34 @@ CHUNK = 64
 SHAPE_KINDS = ("point", "multipoint", "line", "multiline", "polygon", "multipolygon")
 
 
-def check_chunk(col, kind, shapes, G, subtypes, seed, chunk_id=0, transforms=None, qpts=None):
+def _shift1(x):
+    if x is None:
+        return None
+    if isinstance(x, (tuple, list)):
+        return tuple(_shift1(v) for v in x)
+    return x + 1
+
+
+def check_chunk(col, kind, shapes, G, subtypes, seed, chunk_id=0, transforms=None, qpts=None, half=False):
+    """half=True: the shapes get half-integer coordinates ((e+1)/2, float64) while the points stay on the integers, so that
+    integer-subtype points meet shapes their own subtype cannot represent (oracle in doubled coordinates)"""
     from spatialpandas import GeoSeries
     qpts = qpts or L.all_query_points(G)
     PX = np.array([p[0] for p in qpts], dtype=np.int64)
     PY = np.array([p[1] for p in qpts], dtype=np.int64)
+    if half:
+        shapes = [_shift1(e) for e in shapes]
+        OX, OY = 2 * PX, 2 * PY
+        transforms = [(1, 0, 0), (1, 500, -500), (1, -3, 7)][chunk_id % 3:][:1] if transforms is None else transforms
+    else:
+        OX, OY = PX, PY
     npt = len(qpts)
     # layout with missing points: front / middle / back
     mid = npt // 2
     with_none = [None] + qpts[:mid] + [None] + qpts[mid:] + [None]
     none_pos = [0, mid + 1, npt + 2]
     real_pos = [i for i in range(npt + 3) if i not in none_pos]
-    base = {"kind": kind, "G": G}
+    base = {"kind": kind, "G": G, "half": half}
 
     for sti, st in enumerate(subtypes):
         tlist = transforms or [L.transform_for(st, seed, salt=chunk_id)]
@@ -49,11 +65,11 @@ def check_chunk(col, kind, shapes, G, subtypes, seed, chunk_id=0, transforms=Non
             ivs = inds_vectors(npt + 3)
             ser = GeoSeries(parr_none, index=[f"p{i}" for i in range(npt + 3)])
             scalars = [parr[i] for i in range(npt)]
-            shape_st = ("float64", st)[(chunk_id + sti) % 2]
-            sarr = L.make_array(kind, shapes, shape_st, T)
+            shape_st = "float64" if half else ("float64", st)[(chunk_id + sti) % 2]
+            sarr = L.make_array(kind, shapes, shape_st, (0.5, T[1], T[2]) if half else T)
             for si, e in enumerate(shapes):
                 shape = sarr[si]
-                exp, defined = O.classify_points(kind, e, PX, PY)
+                exp, defined = O.classify_points(kind, e, OX, OY)
                 col.count("nontrivial", int((exp & defined).sum()) + int((~defined).sum()))
                 case = dict(base, shape=jelem(e), subtype=st, shape_subtype=shape_st, T=list(T))
                 # ---- full array
@@ -161,6 +177,14 @@ def plan(ctx):
         fam = list(L.elements_for("polygon", 2, True))
         for c in range(0, len(fam), CHUNK):
             units.append(("polygon", fam[c:c + CHUNK], 2))
+    # multipoints / lines with many vertices (a different code path may serve large shapes): grids whose points share x and y
+    grid = tuple((x, y) for x in range(0, 16, 2) for y in range(0, 10, 2))                      # 40 points, 8 columns x 5 rows
+    grid_rev = tuple(sorted(grid, key=lambda p: (-p[1], p[0])))
+    sparse = tuple((x, (x * 3) % 10 // 2 * 2) for x in range(0, 14, 2)) * 5                      # 35 points, many duplicates
+    cols2 = tuple((x, y) for x in (2, 12) for y in range(0, 14, 2)) + tuple((x, 6) for x in range(0, 16, 2)) * 3   # 38 points
+    units.append(("multipoint", [grid, grid_rev, sparse, cols2], 7))
+    snake = tuple((x, y) for i, x in enumerate(range(0, 16, 2)) for y in (range(0, 10, 2) if i % 2 == 0 else range(8, -2, -2)))
+    units.append(("line", [snake, snake[::-1], grid], 7))
     for kind in ("polygon", "multipolygon"):
         fam = list(L.elements_big(kind, T))
         for c in range(0, len(fam), 32):
@@ -211,6 +235,8 @@ def run(ctx):
         j = (i + rot) % len(units)
         kind, shapes, G = units[j]
         check_chunk(col, kind, shapes, G, L.SUBTYPES, ctx.seed, chunk_id=j)
+        if (j + ctx.seed) % (1 if ctx.thorough else 3) == 0:
+            check_chunk(col, kind, shapes, G, L.SUBTYPES, ctx.seed, chunk_id=j, half=True)
 
     core.pmap(ctx, work, len(units) + len(hu))
     ctx.rule = ("every shape of the lattice families (points, multipoints, all vertex sequences for lines, "
@@ -224,9 +250,19 @@ def run(ctx):
                        "points on polygon rings exempt from the truth value (form agreement still checked)"]
 
 
+def tuple_minus1(x):
+    if x is None:
+        return None
+    if isinstance(x, (tuple, list)):
+        return tuple(tuple_minus1(v) for v in x)
+    return x - 1
+
+
 def replay(ctx, case):
     col = core.Collector()
     e = telem(case["shape"])
+    if case.get("half"):
+        e = tuple_minus1(e)
     check_chunk(col, case["kind"], [e], case["G"], [case["subtype"]], 0, 0,
-                transforms=[tuple(case["T"])])
+                transforms=[tuple(case["T"])], half=bool(case.get("half")))
     return col.violations
